@@ -135,7 +135,7 @@ class C15(Prop):
         "canonical_symbol_amino", "canonical_symbol_rna", "canonical_symbol_dna",
         "reverseComplement_twice", "generated_complement_involutive",
         "flushLeftInserts_spec", "markFragmentsOld_row_spec", "markFragmentsOld_rows", "generated_gap_missing_codes",
-        "wuss2ct_accepts_iff", "wuss2ct_involution", "wuss2ct_pairs_matched", "wuss2ct_of_labels", "ct2wuss_nested_labels", "nested_roundtrip", "wuss_ct_wuss_ct",
+        "wuss2ct_accepts_iff", "wuss2ct_involution", "wuss2ct_pairs_matched", "wuss2ct_of_labels", "ct2wuss_nested_labels", "nested_roundtrip", "nested_roundtrip_total", "removeBroken_nested", "repaired_then_compacted_balanced", "wuss_ct_wuss_ct",
         "removeBroken_keeps_exactly", "removeBroken_rejects_unbalanced",
         "ct2wuss_shape", "wussReverse_involutive")]
     claimed = True
@@ -149,11 +149,12 @@ class C15(Prop):
                   "SequenceSubset keeps rows/names/weights/accessions/descriptions/SS/SA/PP of retained sequences at their rank, carries their GS/GR markup tag by tag, copies per-column annotation, drops comments/GF/GC, "
                   "result well formed; Clone = identity; digital->text->digital = id, text->digital->text = canonical symbol map (whole regenerated tables by decide); ReverseComplement twice = id; "
                   "FlushLeftInserts and MarkFragments_old keep every row's length and residues; esl_wuss2ct accepts iff all symbols legal and each of the 27 bracket languages balanced, its table is a "
-                  "fixed-point-free involution joining matching symbols; RemoveBrokenBasepairs keeps exactly the pairs with both partners retained (pair-table level); nested round trip wuss2ct(ct2wuss ct) = ct; "
+                  "fixed-point-free involution joining matching symbols; RemoveBrokenBasepairs keeps exactly the pairs with both partners retained (pair-table level, and on nested structures also string level); "
+                  "unconditional nested round trip: esl_ct2wuss succeeds on every nested table and wuss2ct(ct2wuss ct) = ct; "
                   "esl_wuss_reverse involutive. The hand model is tied to the working tree by an exact field-by-field differential run; monitors restate the property on the implementation's own dumps.")
     level_note = ("Partial: with pseudoknot letters the wuss->ct->wuss->ct round trip (hence the pair set of a re-encoded SS line after RemoveBrokenBasepairs on a pseudoknotted structure) is compared on every run "
-                  "against an independent WUSS reader but not proved; esl_ct2wuss may refuse (eslEINVAL, documented) a table whose greedy lettering needs more than A..Z; the round-trip theorem is conditional on "
-                  "esl_ct2wuss returning eslOK (no proof that it always does on nested tables). Trusted: Lean kernel + propext/Classical.choice/Quot.sound; fidelity of the hand model is checked, not proved, by the "
+                  "against an independent WUSS reader but not proved; esl_ct2wuss may refuse (eslEINVAL, documented) a table whose greedy lettering needs more than A..Z; "
+                  "Trusted: Lean kernel + propext/Classical.choice/Quot.sound; fidelity of the hand model is checked, not proved, by the "
                   "differential run; FlushLeftInserts is modelled as an append-only output (b <= a in the C loop); float thresholds of MarkFragments are evaluated by the driver (L0).")
     diverge_is_violation = True
     fault_is_output = True       # faults are classified by monitor() (known finding vs. new)
@@ -313,7 +314,7 @@ class C15(Prop):
             return (m or "1") + " cyc=1"
         for _ in range(rng.randrange(1, 6)):
             r = rng.random()
-            gaps = rng.choice(["-_.~", "-.", "-", "-_.~*"])
+            gaps = rng.choice(["-_.~", "-.", "-", "-_.~*", "".join(rng.sample("-_.~*xN", rng.randrange(1, 5)))])
             if r < 0.2:
                 ops += ["colsubset mask=" + cmask(alen), "dump", "validate"]
             elif r < 0.32:
